@@ -616,7 +616,7 @@ class Interp:
                     work.append((t["target"], st))
             elif k == "switch":
                 d = self.operand(st, frame, t["discr"])
-                if isinstance(d, Const) and not isinstance(d.v, str):
+                if isinstance(d, Const) and isinstance(d.v, (int, bool)):
                     dv = int(d.v)
                     tgt = t["otherwise"]
                     for v, x in t["targets"]:
